@@ -17,7 +17,7 @@ ToS(seq) == {seq[x] : x \in DOMAIN seq}
 TracePol == [v \in DOMAIN PolTab |->
                 [rules |-> [r \in DOMAIN PolTab[v].rules |-> [n \in DOMAIN PolTab[v].rules[r] |->
                                 [pr |-> ToS(PolTab[v].rules[r][n].pr), thr |-> PolTab[v].rules[r][n].thr]]],
-                 gthr |-> {[refs |-> ToS(x.refs), thr |-> x.thr] : x \in ToS(PolTab[v].gthr)},
+                 gthr |-> {[refs |-> ToS(x.refs), thr |-> x.thr] : x \in ToS(PolTab[v].gthr) \cup ToS(PolTab[v].cgthr)},
                  bfp |-> ToS(PolTab[v].bfp), all |-> ToS(PolTab[v].all), apps |-> PolTab[v].apps]]
 
 E(e) == CASE e.k = "ann" -> [k |-> "ann", tg |-> ToS(e.tg), s |-> e.s]
